@@ -73,7 +73,7 @@ theorem eval_definite (env1 env2 : EvalEnv) (le : DefLe env1 env2) :
     simp only [Value.shouldPropagate, Bool.false_eq_true, if_false] at a ⊢
     rw [x2] at a; rw [e2]
     simpa using a
-  case case67 =>
+  case case68 =>
     intro locals f args fv locals1 x1 h1 v1 locals2 x2 ih2 ih1 v c' a hp
     rw [eval] at a
     rw [x1] at a
@@ -98,7 +98,7 @@ theorem eval_definite (env1 env2 : EvalEnv) (le : DefLe env1 env2) :
     obtain ⟨w, hw, hr⟩ := map_ok _ _ _ a
     injection hr with hr1 hr2; subst hr1; subst hr2
     rw [le.var _ _ _ hw hp]; rfl
-  case case69 =>
+  case case70 =>
     intro locals f args locals1 vs locals2 x1 name x2 h ih2 ih1 v c' a hp
     have e2 := ih2 _ _ x2 rfl
     have e1 := ih1 _ _ x1
@@ -110,7 +110,7 @@ theorem eval_definite (env1 env2 : EvalEnv) (le : DefLe env1 env2) :
     obtain ⟨w, hw, hr⟩ := map_ok _ _ _ a
     injection hr with hr1 hr2; subst hr1; subst hr2
     rw [le.fn _ _ _ _ hw hp]; rfl
-  case case70 =>
+  case case71 =>
     intro locals f args locals1 vs locals2 x1 idx x2 h ih2 ih1 v c' a hp
     have e2 := ih2 _ _ x2 rfl
     have e1 := ih1 _ _ x1
